@@ -152,6 +152,12 @@ def _measure(case):
         text = chain_text(case['pos'], case['a'], case['b'], case.get('long', False))
     elif case['mode'] == 'default':
         text = default_text(case['n'], case['quote'])
+    elif case['mode'] == 'ns-rich':
+        # nested namespaces, each followed by further declarations of the enclosing one, around a body of ordinary size
+        body = ' '.join('class Small%d { Small%d(); int get%d() const; double v%d; };' % (i, i, i, i) for i in range(5))
+        text = body
+        for i in reversed(range(case['a'])):
+            text = 'namespace n%d { %s class After%d { After%d(); }; void f%d(int a); }' % (i, text, i, i, i)
     elif case['mode'] == 'enum-comment':
         # n enumerators with long names and comments between them and before the closing brace
         names = ['kEnumerator%02dLongName' % i for i in range(case['n'])]
@@ -211,6 +217,8 @@ def run(ctx):
         for a in range(Dmax, Ddeep + 1):
             deep.append({'mode': 'chain', 'pos': pos, 'a': a, 'b': 1, 'long': False, 'axis': 'ns'})
     ecm = [{'mode': 'enum-comment', 'n': n} for n in (2, 3, 4, 6, 8, 12, 16, 24, 32)]
+    Drich = 16 if ctx.thorough else 12
+    ecm += [{'mode': 'ns-rich', 'a': a} for a in range(1, Drich + 1)]
     # default-value expressions of growing length
     dflt = [{'mode': 'default', 'n': n, 'quote': q} for q in (False, True) for n in (8, 12, 16, 20, 24, 32, 48, 64)]
     res = ctx.map(measure, cases, chunksize=4)
@@ -223,7 +231,7 @@ def run(ctx):
             if c.get('axis') == 'ns':
                 nsteps[(c['pos'], c['a'])] = r['steps']
             else:
-                dsteps[(c['mode'], c.get('pos'), c.get('long'), c.get('quote'), c.get('b', c.get('n')))] = r['steps']
+                dsteps[(c['mode'], c.get('pos'), c.get('long'), c.get('quote'), c.get('b', c.get('n', c.get('a'))))] = r['steps']
     steps = {}
     cpu_total = 0.0
     for c, r in res:
@@ -291,6 +299,16 @@ def run(ctx):
                                        '%d -> %d activations' % (s1 / s0, RATIO_MAX, a, a + 1, pos, s0, s1),
                                   {'pair': [{'mode': 'chain', 'pos': pos, 'a': a, 'b': 1}, {'mode': 'chain', 'pos': pos, 'a': a + 1, 'b': 1}],
                                    'limit': RATIO_MAX, 'sig': sig})
+    for a in range(FROM_DEPTH, Drich):
+        s0, s1 = dsteps.get(('ns-rich', None, None, None, a)), dsteps.get(('ns-rich', None, None, None, a + 1))
+        if not s0 or not s1:
+            continue
+        nratios += 1
+        if s1 / s0 > RATIO_MAX:
+            sig = 'C19|super-polynomial|namespaces-with-sibling-declarations'
+            ctx.add_violation(sig, 'parsing cost grows by a factor %.2f (> %.2f) from namespace depth %d to %d (each namespace followed by sibling '
+                                   'declarations, 5 small classes innermost): %d -> %d activations' % (s1 / s0, RATIO_MAX, a, a + 1, s0, s1),
+                              {'pair': [{'mode': 'ns-rich', 'a': a}, {'mode': 'ns-rich', 'a': a + 1}], 'limit': RATIO_MAX, 'sig': sig})
     for n0, n1 in ((2, 4), (3, 6), (4, 8), (6, 12), (8, 16), (12, 24), (16, 32)):
         s0, s1 = dsteps.get(('enum-comment', None, None, None, n0)), dsteps.get(('enum-comment', None, None, None, n1))
         if not s0 or not s1:
@@ -332,7 +350,7 @@ def run(ctx):
         'evaluations': len(cases) + len(hist) + len(deep) + len(dflt) + len(ecm),
         'distinct_nontrivial': len(steps) + len(dsteps) + len(nsteps),
         'rule': 'all (namespace depth a, template depth b) with a + b <= %d in 6 type positions, pure template chains to depth %d '
-                '(short and long type names), files of n in %s declarations of 8 kinds, default expressions of 8..64 characters, namespace chains to the same depth, enums of 2..32 enumerators with comments between them; '
+                '(short and long type names), files of n in %s declarations of 8 kinds, default expressions of 8..64 characters, namespace chains to the same depth, enums of 2..32 enumerators with comments between them, nested namespaces with sibling declarations around 5 classes to depth 12; '
                 'cost = function activations in pyparsing and gtwrap.interface_parser; %d consecutive-depth / size ratios evaluated'
                 % (Dmax, Ddeep, sizes, nratios),
         'samples': [chain_text('argument', 2, 3), {'worst_ratio': round(worst[0], 3), 'at': worst[1]}],
